@@ -1,6 +1,7 @@
 CONSTANTS
   Fixed = TRUE
   MaxJumps = 16
+  LabelBuf = 0
   PtrMask = 1024
   ResetOnLabel = FALSE
   Dgrams <- DgLarge
